@@ -76,6 +76,25 @@ _c("place_notes", params={"self": "Bar", "notes": "None", "duration": "real"},
                   inline_callees=["mingus.containers.note_container.NoteContainer.__init__",
                                   "mingus.containers.note_container.NoteContainer.empty",
                                   "mingus.containers.note_container.NoteContainer.add_notes",
+                                  "mingus.containers.note_container.NoteContainer.add_note"]),
+             # an EMPTY list is a list like any other: it becomes a new (empty) container, not a bare list and not a rest
+             dict(name="empty-list", params={"self": "Bar", "notes": "[]", "duration": "real"},
+                  cases=[dict(when=_ROOM, returns="bool", ensures=[
+                              ("accepted", "result == True"),
+                              ("appends-exactly-one-entry", "len(self.bar) == old_len + 1"),
+                              ("entry-is-start-beat-value-and-a-new-empty-container",
+                               "self.bar[len(self.bar) - 1][0] == old_beat and self.bar[len(self.bar) - 1][1] == duration and "
+                               "hasattr(self.bar[len(self.bar) - 1][2], 'notes') and "
+                               "len(self.bar[len(self.bar) - 1][2].notes) == 0 and is_fresh(self.bar[len(self.bar) - 1][2])"),
+                              ("earlier-entries-untouched", "list_prefix_same(self.bar, old_bar, old_len)"),
+                              ("current-beat-advances-by-the-length", "feq(self.current_beat, old_beat + 1 / duration)")]),
+                         dict(when=None, returns="bool", ensures=[
+                              ("refused", "result == False"),
+                              ("and-nothing-changes", "len(self.bar) == old_len and list_prefix_same(self.bar, old_bar, old_len) and "
+                                                      "self.current_beat == old_beat and self.length == old_length")])],
+                  inline_callees=["mingus.containers.note_container.NoteContainer.__init__",
+                                  "mingus.containers.note_container.NoteContainer.empty",
+                                  "mingus.containers.note_container.NoteContainer.add_notes",
                                   "mingus.containers.note_container.NoteContainer.add_note"])],
    **_PLACE)
 CLASSES["NoteContainer"] = {"class": "mingus.containers.note_container.NoteContainer", "fields": {"notes": "[Note]"}}
